@@ -31,7 +31,7 @@ Theorem c08_safe_body_perm_invariant :
   forall (K V I : Type) (keq : K -> K -> bool) (ieq : I -> I -> bool),
   (forall a b, keq a b = true <-> a = b) -> (forall a b, ieq a b = true -> a = b) ->
   forall (body : list (stmt K V I)) (st : list (cell K I)) (l1 l2 : list (K * V)),
-  body_safe K V I ieq body = true -> NoDup (map fst l1) -> Permutation l1 l2 ->
+  body_safe K V I keq ieq body = true -> NoDup (map fst l1) -> Permutation l1 l2 ->
   state_equiv K I keq (run_loop K V I keq body st l1) (run_loop K V I keq body st l2).
 Proof. exact safe_body_perm_invariant. Qed.
 Print Assumptions c08_safe_body_perm_invariant.
@@ -62,7 +62,7 @@ Print Assumptions c08_assign_outer_refuted.
 
 Theorem c08_append_unsorted_refuted :
   exists (body : list (stmt N N N)) (l1 l2 : list (N * N)),
-    body_safe N N N N.eqb body = true /\ NoDup (map fst l1) /\ Permutation l1 l2 /\
+    body_safe N N N N.eqb N.eqb body = true /\ NoDup (map fst l1) /\ Permutation l1 l2 /\
     run_loop N N N N.eqb body [CList []] l1 <> run_loop N N N N.eqb body [CList []] l2.
 Proof. exact append_unsorted_refuted. Qed.
 Print Assumptions c08_append_unsorted_refuted.
